@@ -98,6 +98,8 @@ def run_append(template, compress, kind, fault_at=None, fault_mode='error',
                     rec.write_record(record)
                 except OSError as e:
                     exc = 'OSError:%s' % e.strerror
+                except KeyboardInterrupt as e:
+                    exc = 'INTERRUPT:%s' % e
                 except Exception as e:
                     exc = 'UNEXPECTED:%s:%s' % (type(e).__name__, e)
         else:
@@ -111,6 +113,8 @@ def run_append(template, compress, kind, fault_at=None, fault_mode='error',
                     rec, info = warcharn.make_recorder(p, wd)
                 except OSError as e:
                     exc = 'OSError:%s' % e.strerror
+                except KeyboardInterrupt as e:
+                    exc = 'INTERRUPT:%s' % e
                 except Exception as e:
                     exc = 'UNEXPECTED:%s:%s' % (type(e).__name__, e)
         after = warcharn.collect(wd)
@@ -328,6 +332,24 @@ def run_job(job, cap=5):
                          'io-journal-left:' + ('journal' if 'wpullinc' in op['path']
                                                else 'archive') + ':' + op['op'],
                          fault_at=i, mode=mode)
+
+        # (a''') the process is interrupted (KeyboardInterrupt raised out of a write or open
+        # of the append, i.e. SIGINT without a handler): it dies while the exception unwinds,
+        # so what the unwinding leaves behind must satisfy the crash clause
+        for i, op in enumerate(ops):
+            if op['op'] not in ('write', 'open'):
+                continue
+            r = run_append(template, compress, kind, i, 'interrupt', scenario=scen)
+            if not (r['exc'] or '').startswith('INTERRUPT'):
+                continue
+            res['evaluations'] += 1
+            res['extra']['interrupts'] = res['extra'].get('interrupts', 0) + 1
+            res['states'].add(h64((tag, 'interrupt', i)))
+            vv = check_crash_state(r['after'], len(r['before'].get(an, b'')), compress)
+            if vv:
+                viol('interrupt (KeyboardInterrupt) during %s of %s (op %d/%d): %s'
+                     % (op['op'], op['path'], i, len(ops), vv),
+                     'interrupt:' + vv.split('(')[0][:40], fault_at=i, mode='interrupt')
 
         # (b) kill at every operation boundary and inside every write
         bfiles = dict(before)
